@@ -9,6 +9,7 @@ package kademlia
 
 //@ type bucket
 //@   invariant entries != nil
+//@   invariant forall k:string :: (k in entries) && entries[k].ExpiresAt != 0 ==> minExpiresAt != 0 && minExpiresAt <= entries[k].ExpiresAt
 
 //@ func (Entry).IsExpired
 //@   pure
@@ -38,6 +39,7 @@ package kademlia
 //@   ensures bu.entries[string(e.Key)] == e
 //@   ensures len(bu.entries) == old(len(bu.entries)) + (old(string(e.Key) in bu.entries) ? 0 : 1)
 //@   ensures forall k:string :: k != string(e.Key) ==> ((k in bu.entries) <==> old(k in bu.entries)) && bu.entries[k] == old(bu.entries[k])
+//@   ensures [minlb] old(inv(bu)) ==> inv(bu)
 //@
 //@ func (*bucket).delete
 //@   requires b.entries != nil
@@ -47,9 +49,11 @@ package kademlia
 //@   ensures !(string(key) in b.entries)
 //@   ensures len(b.entries) == old(len(b.entries)) - (exists ? 1 : 0)
 //@   ensures forall k:string :: k != string(key) ==> ((k in b.entries) <==> old(k in b.entries)) && b.entries[k] == old(b.entries[k])
+//@   ensures [minlb] old(inv(b)) ==> inv(b)
 //@   loop 0:
 //@     invariant forall k:string :: ((k in b.entries) <==> (old(k in b.entries) && k != string(key))) && (k != string(key) ==> b.entries[k] == old(b.entries[k]))
 //@     invariant len(b.entries) == old(len(b.entries)) - 1
+//@     invariant forall k:string :: seen(k) && (k in b.entries) && b.entries[k].ExpiresAt != 0 ==> b.minExpiresAt != 0 && b.minExpiresAt <= b.entries[k].ExpiresAt
 //@
 //@ func (*bucket).expire
 //@   requires b.entries != nil
@@ -57,6 +61,7 @@ package kademlia
 //@   ensures forall k:string :: (k in b.entries) <==> (old(k in b.entries) && !expired(old(b.entries[k]).ExpiresAt, now))
 //@   ensures forall k:string :: (k in b.entries) ==> b.entries[k] == old(b.entries[k])
 //@   ensures len(ret0) - len(ret) == old(len(b.entries)) - len(b.entries) && len(ret0) >= len(ret)
+//@   ensures [minlb] old(inv(b)) ==> inv(b)
 //@   loop 0:
 //@     invariant forall k:string :: seen(k) ==> ((k in b.entries) <==> (old(k in b.entries) && !expired(old(b.entries[k]).ExpiresAt, now)))
 //@     invariant forall k:string :: !seen(k) ==> ((k in b.entries) <==> old(k in b.entries))
@@ -69,6 +74,7 @@ package kademlia
 //@   modifies all(b.entries)
 //@   ensures old(string(ret.Key) in b.entries) || true
 //@   ensures len(b.entries) == old(len(b.entries)) - 1
+//@   ensures [minlb] old(inv(b)) ==> inv(b)
 //@   ensures exists k:string :: old(k in b.entries) && !(k in b.entries) && ret == old(b.entries[k]) && \
 //@           (forall j:string :: j != k ==> ((j in b.entries) <==> old(j in b.entries)) && b.entries[j] == old(b.entries[j]))
 //@   loop 0:
@@ -79,6 +85,10 @@ package kademlia
 //@     invariant first ==> (forall k:string :: !seen(k))
 
 // ---- the cache ------------------------------------------------------------------------------------
+
+// minlb(kc): in every bucket the earliest-expiry shortcut is a lower bound of the (non-zero) expiry
+// times the bucket holds, so a bucket whose shortcut has not passed holds nothing expired
+//@ spec func minlb(kc ref) bool = forall i, k:string :: 0 <= i && i < len(kc.buckets) && (k in kc.buckets[i].entries) && kc.buckets[i].entries[k].ExpiresAt != 0 ==> kc.buckets[i].minExpiresAt != 0 && kc.buckets[i].minExpiresAt <= kc.buckets[i].entries[k].ExpiresAt
 
 //@ type Cache
 //@   invariant forall i :: 0 <= i && i < len(buckets) ==> buckets[i] != nil && buckets[i].entries != nil
@@ -108,6 +118,7 @@ package kademlia
 //@   noframe
 //@   requires inv(kc)
 //@   ensures inv(kc)
+//@   ensures [minlb] old(minlb(kc)) ==> minlb(kc)
 //@   ensures b == nil ==> kc.count == old(kc.count) && ret == nil
 //@   ensures b != nil ==> kc.count == old(kc.count) - (old(string(key) in b.entries) ? 1 : 0)
 //@   ensures b != nil ==> len(b.entries) == old(len(b.entries)) - (old(string(key) in b.entries) ? 1 : 0) && !(string(key) in b.entries)
@@ -117,6 +128,7 @@ package kademlia
 //@   noframe
 //@   requires inv(kc)
 //@   ensures inv(kc)
+//@   ensures [minlb] old(minlb(kc)) ==> minlb(kc)
 //@   ensures [sameconfig] kc.max == old(kc.max) && kc.minPerBucket == old(kc.minPerBucket) && kc.buckets == old(kc.buckets)
 //@   ensures [samebuckets] forall i :: 0 <= i && i < len(kc.buckets) ==> kc.buckets[i] == old(kc.buckets[i])
 //@   ensures ret == nil ==> kc.count == old(kc.count) && (forall i :: 0 <= i && i < len(kc.buckets) ==> len(kc.buckets[i].entries) <= kc.minPerBucket)
@@ -134,6 +146,8 @@ package kademlia
 //@   requires inv(kc)
 //@   ensures inv(kc)
 //@   ensures kc.count + (len(ret) - len(out)) == old(kc.count) && len(ret) >= len(out)
+//@   ensures [minlb] old(minlb(kc)) ==> minlb(kc)
+//@   ensures [exact] old(minlb(kc)) ==> forall j, k:string :: 0 <= j && j < len(kc.buckets) && (k in kc.buckets[j].entries) ==> !expired(kc.buckets[j].entries[k].ExpiresAt, now)
 //@   ensures [allbuckets] forall j, k:string :: 0 <= j && j < len(kc.buckets) && kc.buckets[j].minExpiresAt < now && (k in kc.buckets[j].entries) ==> !expired(kc.buckets[j].entries[k].ExpiresAt, now)
 //@   loop 0:
 //@     invariant 0 <= _i && _i <= len(kc.buckets) && inv(kc)
@@ -141,6 +155,7 @@ package kademlia
 //@     invariant kc.count + (len(out) - len(old(out))) == old(kc.count) && len(out) >= len(old(out))
 //@     invariant len(kc.buckets) == old(len(kc.buckets))
 //@     invariant kc.buckets == old(kc.buckets)
+//@     invariant old(minlb(kc)) ==> minlb(kc)
 //@
 //@ func newBucket
 //@   ensures ret != nil && fresh(ret) && ret.entries != nil && fresh(ret.entries) && len(ret.entries) == 0
@@ -153,6 +168,7 @@ package kademlia
 //@   ensures string(key) in b.entries
 //@   ensures len(b.entries) == old(len(b.entries)) + (added ? 1 : 0)
 //@   ensures forall k:string :: k != string(key) ==> ((k in b.entries) <==> old(k in b.entries))
+//@   ensures [minlb] old(inv(b)) ==> inv(b)
 //@   fnspec fn:
 //@     pure
 //@
@@ -166,6 +182,7 @@ package kademlia
 //@   ghostvar badded = false
 //@   ghostvar removed = false
 //@   ensures [count] kc.count == old(kc.count) + (ghost(badded) ? 1 : 0) - (ghost(removed) ? 1 : 0)
+//@   ensures [minlb] old(minlb(kc)) ==> minlb(kc)
 //@   after call (*bucket).update:
 //@     set badded = res0
 //@   after call (*Cache).evict:
@@ -177,6 +194,7 @@ package kademlia
 //@   loop 0:
 //@     invariant inv(kc) && kc.count == old(kc.count) && kc.max == old(kc.max) && kc.minPerBucket == old(kc.minPerBucket) && len(kc.buckets) >= old(len(kc.buckets))
 //@     invariant !ghost(badded) && !ghost(removed)
+//@     invariant old(minlb(kc)) ==> minlb(kc)
 
 // ---- enumeration order (C19): the order in which ForEach visits the buckets ----------------------
 // Bucket lz first; then the deeper buckets whose bit of d = locus xor k is 1, by increasing depth;
